@@ -168,6 +168,21 @@ int main(int argc, char **argv) {
                 }
             }
         }
+        // a second, independent look at one clause: a slot whose parent is IN the stream occurs exactly once in that parent's chain.  Reported
+        // beside the first problem found above (WF=<first>+child-chain) so that a slot outside the stream elsewhere does not hide it.
+        if (wf != "ok" && wf.compare(0, 11, "child-chain") != 0 && wf != "cycle" && wf != "count") {
+            std::map<const gr_slot *, int> posm2; size_t steps2 = 0;
+            for (const gr_slot *q = gr_seg_first_slot(gseg); q && ++steps2 < 100000; q = gr_slot_next_in_segment(q)) posm2[q] = 1;
+            bool bad = false;
+            for (std::map<const gr_slot *, int>::iterator it = posm2.begin(); it != posm2.end() && !bad; ++it) {
+                const gr_slot *par = gr_slot_attached_to(it->first);
+                if (!par || !posm2.count(par)) continue;
+                int occ = 0; size_t s2 = 0;
+                for (const gr_slot *c = gr_slot_first_attachment(par); c; c = gr_slot_next_sibling_attachment(c)) { if (c == it->first) occ++; if (++s2 > posm2.size() + 8) { occ = 1; break; } }
+                if (occ != 1) bad = true;
+            }
+            if (bad) wf += "+child-chain";
+        }
         if (died) wf = "died";          // no segment is returned: the state is not observable through the API
         printf("%s WF=%s V%s | T nc=%zu,rtl=%d %sF%s%s%s\n", id.c_str(), wf.c_str(), verdicts.c_str(), (size_t)seg.charInfoCount(), dir & 1, g_events.c_str(), snapshot(&seg).c_str(), cin.c_str(), idx.c_str());
         gr_seg_destroy(gseg);
